@@ -36,6 +36,8 @@ inductive Call where
   | emsg (h : Nat) | elist (h : Nat)
   | len (h : Nat)
   | end_ (h : Nat) | build (h : Nat)
+  | fwfail (h : Nat)           -- WriteField with a write function that fails
+  | ewfail (h : Nat)           -- ValueListWriter.Add / WriteElement with a write function that fails
   | err | reset | free
   | bad
   deriving Repr
@@ -65,6 +67,16 @@ def copyMsg (w : W) (idx : Nat) (srcBytes : Bytes) : W × Out :=
   match openMessage srcBytes with
   | .ok src => copyLoop src idx src.fields 0 w
   | _ => (w, .panic)
+
+/-- writer.WriteValue when the caller's write function returns an error: the error becomes the
+writer's sticky error (`fail`), whatever the function appended before -/
+def writeFail (w : W) (idx : Nat) : W × Out :=
+  match w.err with
+  | some e => (w, .err e)
+  | none =>
+    match w.st with
+    | none => (w, .panic)
+    | some _ => failOut w idx
 
 def getHandle (s : Sess) (h : Nat) (k : HKind) : Option Handle :=
   match s.handles[h]? with
@@ -160,6 +172,14 @@ def step (s : Sess) (idx : Nat) : Call → Sess × Out
       let (s1, o) := onHandle s hd.dead fun w => end_ w idx
       let s2 := if hd.kind = .M then killHandle s1 h else s1
       (recordBuilt s2 o, o)
+  | .fwfail h =>
+    match getHandle s h .M with
+    | none => (s, .badop)
+    | some hd => onHandle s hd.dead fun w => writeFail w idx
+  | .ewfail h =>
+    match getHandle s h .L with
+    | none => (s, .badop)
+    | some hd => onHandle s hd.dead fun w => writeFail w idx
   | .err => (s, match s.w.err with | some e => .err e | none => .ok)
   | .reset => let (w1, o) := reset s.w; ({ s with w := w1 }, o)
   | .free => let (w1, o) := free s.w; ({ s with w := w1 }, o)
